@@ -38,6 +38,7 @@ structure CellInv (s : State F) (T : Int → Int → F) (h w n vr vc i : Nat) : 
   nc : s.ienv "n_cols" = w
   vpr : s.ienv "vp_row" = vr
   vpc : s.ienv "vp_col" = vc
+  shR : s.shp "raster" = [h, w]
 
 theorem dataWrite_exec (f0 f1 f2 : Nat) (hf : f0 < 7 ∧ f1 < 7 ∧ f2 < 7) (s : State F) (fuel : Nat) (w i j : Nat) (vr : Int)
     (hs : s.ctl = .run) (hshD : s.shp "data" = [3, w]) (hshE : s.shp "e" = [7])
@@ -195,9 +196,9 @@ theorem cellBody_other (hL : LitOK F) (hH : HalfOK F) (s : State F) (fuel : Nat)
     (inv : CellInv s T h w n vr vc i) (hj : s.ienv "j" = j) (hjw : j < w) (hih : i < h)
     (hc : s.ienv "count_event" = c) (hcn : c + 3 ≤ n) (hne : ¬ (i = vr ∧ j = vc)) :
     Post fuel cellBody s (CellPost s T h w n vr vc i j c) := by
-  obtain ⟨hctl, shInr, shE, lenE, shEL, lenEL, shD, lenD, shV, lenV, ring, vi, nr, nc, vpr, vpc⟩ := inv
+  obtain ⟨hctl, shInr, shE, lenE, shEL, lenEL, shD, lenD, shV, lenV, ring, vi, nr, nc, vpr, vpc, shR⟩ := inv
   obtain ⟨ie, fe, be, ia, fa, shp, ext, ctl⟩ := s
-  simp only at hctl shInr shE lenE shEL lenEL shD lenD shV lenV ring vi nr nc vpr vpc hj hc; subst hctl
+  simp only at hctl shInr shE lenE shEL lenEL shD lenD shV lenV ring vi nr nc vpr vpc shR hj hc; subst hctl
   obtain ⟨e0, e1, e2, e3, e4, e5, e6, hE⟩ := list7 _ lenE
   have hne' : ¬ ((i : Int) = vr ∧ (j : Int) = vc) := by omega
   rw [cellBody_unfold]
@@ -292,7 +293,7 @@ theorem cellBody_other (hL : LitOK F) (hH : HalfOK F) (s : State F) (fuel : Nat)
   refine Post.of_eq _ (countUp_exec s9 fuel) ?_
   have v9' := v9.count
   refine ⟨⟨k9.ctl, by simp only []; rw [sh9]; exact shInr, by simp only []; rw [sh9]; exact shE, ?_, by simp only []; rw [sh9]; exact shEL, ?_,
-    by simp only []; rw [sh9]; exact shD, ?_, by simp only []; rw [sh9]; exact shV, ?_, ?_, v9'.vi, v9'.nr, v9'.nc, v9'.vpr, v9'.vpc⟩,
+    by simp only []; rw [sh9]; exact shD, ?_, by simp only []; rw [sh9]; exact shV, ?_, ?_, v9'.vi, v9'.nr, v9'.nc, v9'.vpr, v9'.vpc, by simp only []; rw [sh9]; exact shR⟩,
     ?_, ?_, ?_, ?_, ?_, ?_⟩
   · simp only []; rw [f9]; simp [setS_apply]
   · simp only []; rw [f9]; simp [setS_apply, lenEL]
@@ -320,9 +321,9 @@ theorem cellBody_obs (s : State F) (fuel : Nat) (T : Int → Int → F) (h w n v
     (inv : CellInv s T h w n vr vc vr) (hj : s.ienv "j" = vc) (hjw : vc < w) (hih : vr < h)
     (hc : s.ienv "count_event" = c) :
     Post fuel cellBody s (ObsPost s T h w n vr vc c) := by
-  obtain ⟨hctl, shInr, shE, lenE, shEL, lenEL, shD, lenD, shV, lenV, ring, vi, nr, nc, vpr, vpc⟩ := inv
+  obtain ⟨hctl, shInr, shE, lenE, shEL, lenEL, shD, lenD, shV, lenV, ring, vi, nr, nc, vpr, vpc, shR⟩ := inv
   obtain ⟨ie, fe, be, ia, fa, shp, ext, ctl⟩ := s
-  simp only at hctl shInr shE lenE shEL lenEL shD lenD shV lenV ring vi nr nc vpr vpc hj hc; subst hctl
+  simp only at hctl shInr shE lenE shEL lenEL shD lenD shV lenV ring vi nr nc vpr vpc shR hj hc; subst hctl
   obtain ⟨e0, e1, e2, e3, e4, e5, e6, hE⟩ := list7 _ lenE
   rw [cellBody_unfold]
   refine Post.rw (cellPrelude_exec ie fe be ia fa shp ext fuel _ T h w vr vc e0 e1 e2 e3 e4 e5 e6 shInr shE hE ring vi hj hih hjw) ?_
@@ -336,7 +337,7 @@ theorem cellBody_obs (s : State F) (fuel : Nat) (T : Int → Int → F) (h w n v
   have o : off2 [h, w] (vr : Int) (vc : Int) = vr * w + vc := off2_nat h w vr vc
   unfold Post
   simp [obsSkip, exec, BE.ok, BE.eval, IE.ok, IE.eval, FE.ok, FE.eval, cmpInt, setS_apply, vi, hj, vpr, vpc, shV, r1, r2, o]
-  refine ⟨?_, ⟨rfl, shInr, shE, ?_, shEL, ?_, shD, ?_, shV, ?_, ?_, ?_, ?_, ?_, ?_, ?_⟩, ?_, ?_, ?_, ?_, ?_, ?_⟩ <;>
+  refine ⟨?_, ⟨rfl, shInr, shE, ?_, shEL, ?_, shD, ?_, shV, ?_, ?_, ?_, ?_, ?_, ?_, ?_, shR⟩, ?_, ?_, ?_, ?_, ?_, ?_⟩ <;>
     simp [ObsPost, setS_apply, lenEL, lenD, lenV, vi, nr, nc, vpr, vpc, hc]
   exact ring
 end XrsVerif.ILSw
